@@ -18,6 +18,10 @@ def P(level, rule, quick, thorough, **kw):
     return d
 
 PROPS = {
+    "C09": P("exploration",
+             "seeded cases of 120 inputs each: grammar-derived sentences (nesting <=6 quick / <=40 thorough, all value shapes, placeholders incl. $0, $007, 2^31-1, 2^31, 2^32+1, 26 digits), token-level mutations (drop/duplicate/swap/insert/trailing tokens, unterminated strings, mixed &/| without parentheses) and raw bytes incl. invalid UTF-8 and NUL; each ParseQuery call is checked for return-at-quiescence (deadlock), goroutine census and accept/reject/tree against RefParser; non-trivial = case with an input of >=3 tokens; distinct = distinct case hash",
+             (800, 100), (40000, 900),
+             assumptions=["field/blank/value lexical conventions (identifier = [A-Za-z][A-Za-z0-9_]*, blanks = space/tab/CR/LF) are taken from the lexer because the EBNF does not define them"]),
     "C03": P("exploration",
              "seeded cases: index x cache {none, LRU 0, tiny, few, ample} x {on-demand, preloaded} x {plain, lossy cache wrapper} x history of 5..60 related queries, every query re-asked at the end; non-trivial = >=1 cache hit and >=2 distinct expression meanings in the history; distinct = distinct case hash",
              (1600, 100), (60000, 900)),
